@@ -339,7 +339,20 @@ func c13Run(w *kernel.Worker, j *c13Job, rep *kernel.Report) (*Fail, error) {
 					if ac := c13AliasClass(m, d.org, d.expr); ac != "" {
 						cls = ac
 					}
-					switch c13NameWasAlias(j.Path, m, d.org, d.expr) {
+					// is the missing event in an index the expression names directly (not through an alias)?
+					direct := false
+					for _, part := range strings.Split(d.expr, ",") {
+						for _, eid := range m.Events[d.org][part] {
+							if eid == id {
+								direct = true
+							}
+						}
+					}
+					nameWasAlias := c13NameWasAlias(j.Path, m, d.org, d.expr)
+					if !direct && cls == "alias-of-org≠0" {
+						nameWasAlias = "" // the event is expected through an alias of an organisation ≠ 0: that root cause, whatever else the path did
+					}
+					switch nameWasAlias {
 					case "unalias":
 						// own class: an alias that lost its last target must not keep shadowing an index of the same name
 						cls = "index-whose-name-was-an-alias-until-the-alias-lost-its-last-target"
